@@ -13,6 +13,10 @@ CHECKS = {
                 technique="TLA+ handle spec (FsHandles.tla: os.File semantics on handle records over the shared inode table): TLC bounded-exhaustive transitions replayed on MemFS/OrefaFS and on real *os.File (kernel), TLC trace validation with candidate-set tracking (hidden handle state) and deviation catalogue",
                 text="FsHandles.tla specifies Read/ReadAt/Write/WriteAt/WriteString/Seek/Truncate/Stat/Sync/Chmod/Chown/Chdir/Close/ReadDir/Readdirnames on handle records (offset, access mode, append, directory snapshot) over the same inode table as the namespace calls, so unlinked-but-open inodes, hard links and several handles share one content. TLC enumerates every transition from every state reachable in <=3 (quick) / <=4 (thorough) calls from a 3-byte file: 36 open-flag combinations on two names and the directory, up to 2 simultaneous handles, lengths {0,1,3}, offsets {-1,0,size-1,size,size+2}, all whence values, path-level Truncate/Rename/Link/Remove/WriteFile interleaved; each is replayed on MemFS, OrefaFS and on os.File on tmpfs, comparing byte counts, bytes, offsets, error kinds, the content through every link and Stat through every handle after every step. Random 120-200 step histories with handle operations are trace-validated on all three. Trace validation carries the SET of specification states compatible with the observations, because a deviating open (access mode, append) is only observable later.",
                 note="Trusted as C01. Directory offsets other than the rewind Seek(0,0) are not generated (opaque cookies on Linux); SEEK_DATA/SEEK_HOLE are not modelled."),
+    "C04": dict(cat="model_checking", design="DESIGN.md section 8 C04",
+                technique="TLA+ path resolution (FsCore!WalkS: stack-based walk with splice/restart, follow/no-follow per call, link budgets in the state): TLC enumerates configured initial states (all link graphs) x query paths x operations and budget chains; transitions replayed on MemFS and on the kernel; TLC trace validation with deviation catalogue",
+                text="Profile symq: every link graph over 2 (quick) / 3 (thorough) names in /w - each name absent, a file, a directory or a symbolic link to a sibling name, ../w/name, /w/name, s/f, s/u or s, which yields self-loops, 2- and 3-cycles, dangling and chained links in final and intermediate position - next to a fixed directory /w/s holding a file and an upward link, crossed with every query path of up to 4 components through those names and 16 operations (Stat, Open, ReadFile, ReadDir, Chmod, Truncate, Mkdir-below, EvalSymlinks, Chdir follow; Lstat, Readlink, Remove, Rename, Lchown, Link do not). Profile symchain: chains of 1,2,39,40,41,64,65,255,256 links around the kernel's budget (40) and EvalSymlinks' (255). Plus the symlink-bearing histories of C01 (L<=2/3) and random histories. Every case runs on MemFS and on the kernel with identical absolute targets (chroot), results incl. the object reached (Stat info, content, EvalSymlinks path) and the whole tree are compared.",
+                note="Readlink returns the cleaned target by the property's own definition; targets in the universe are clean."),
     "C05": dict(cat="model_checking", design="DESIGN.md section 8 C05",
                 technique="TLC invariants/action properties (TreeWellFormed, FailedCallChangesNothing, SuccessIsLocal) on the FS spec graph + conformance of every real-code step (projection equality, verif-tagged node-graph checker) by edge replay and TLC trace validation",
                 text="TLC checks the tree invariants and the two action properties on the reachable graph of the specification; they transfer to the code because every replayed edge and every validated trace step demands projection equality with a specification state satisfying them plus an 'ok' verdict of the internal node-graph checker (reference counts vs stored link counters, single parent, OrefaFS index == reachable). A step counts against C05 only if it breaks a C05 clause by itself (ghost/hidden entry, unsorted listing, Nlink != number of SameFile paths, diverging hard links, failed call that changed the tree, checker verdict).",
